@@ -70,6 +70,11 @@ def run_batch(out, label, dictname, histories, spec="Trace_File", nshards=None, 
     """Drive + validate one batch; classify failures for out.prop."""
     if not histories:
         return
+    if len(out.violations) >= 40 and not getattr(out, "replay", False):
+        # the verdict is settled many times over (only a broken tree gets here): later batches would add run time -
+        # a systematically hanging library costs a watchdog period per case - and nothing else
+        out.parts.append({"batch": label, "histories": 0, "skipped": "40 or more violations already reported by earlier batches"})
+        return
     res = core.drive_and_validate(f"{out.prop}_{label}", dictname, histories, spec=spec, nshards=nshards, driver=driver,
                                   keep=keep, extra_script=extra_script, group_key=group_key, extra_specs=extra_specs)
     if on_result:
@@ -262,6 +267,36 @@ def design_rb(out, k, depth, timeout=1500):
                       "invariants": "InClass", "states": distinct, "transitions": gen, "trees_in_class": init})
 
 
+def design_api(out, maxops, v4=False, maxnodes=4, timeout=2400, invs="InvAllowed InvNoEffect InvAbs"):
+    """MC_Api: the API layer (CfbApi = lib.rs's checks, lookups and loops on top of CfbPhys) refines the abstract model CfbTree at
+    tiny geometry: allowed result kinds (C01 / C09), refusals without effect (C10), abstraction incl. metadata (C01 / C17)."""
+    cfg = f"""SPECIFICATION Spec
+CONSTANT Dict <- MCDict
+CONSTANTS Names = {{"foo", "FOO", "bar", "a", "bad_colon"}} MaxNodes = {maxnodes} MaxOps = {maxops}
+CONSTANTS SectorLen = 4 MiniLen = 2 Cutoff = 8 FatPer = 4 DirPer = 2 DifatHdr = 1 DirCount = {"TRUE" if v4 else "FALSE"}
+CONSTRAINT Bound
+INVARIANT {invs}
+CHECK_DEADLOCK FALSE
+"""
+    tag = f"mcapi_{out.prop}_{maxops}_{int(v4)}"
+    path = os.path.join(core.SPEC, f"_{tag}.cfg")
+    open(path, "w").write(cfg)
+    try:
+        rc, lines = core.run_tlc("MC_Api.tla", os.path.basename(path), {"DICT": os.path.join(core.DICTDIR, "A.tlc.json")},
+                                 os.path.join(core.WORK, f"md_{tag}"), workers=6, timeout=timeout, xmx="8g", deque=False)
+    finally:
+        os.remove(path)
+    if not core.tlc_ok(lines):
+        raise core.ToolError("MC_Api (design level) failed:\n" + "\n".join(lines[-30:]))
+    gen, distinct = core.tlc_stats(lines)
+    out.add_design(gen, distinct)
+    out.parts.append({"design": f"MC_Api MaxOps={maxops} V4={v4}: CfbApi (lib.rs's path normalisation, lookups, argument checks in the code's order, the loops of "
+                                "create_storage_all / remove_storage_all, setters - on CfbPhys at tiny geometry) refines CfbTree: every call of the alphabet (13 methods "
+                                "x paths with '.', '..', a case variant, an invalid name, nested and stream parents) in every reachable state gets an allowed result "
+                                "kind, a refusal leaves the physical state untouched, the physical state abstracts to the abstract tree (names, kinds, lengths, metadata)",
+                      "invariants": invs, "states": distinct, "transitions": gen})
+
+
 class Fidelity:
     """Collects Trace_Phys output: how many images the physical model predicted exactly, and where it did not."""
 
@@ -279,8 +314,10 @@ class Fidelity:
         for k, n in sorted(kinds.items()):
             print(f"SPEC-DRIFT {prop} CfbPhys does not predict the image: {k} x{n}")
         foreign = sum(int(m.group(1)) for m in (re.match(r'^<<"FOREIGN", (\d+)>>', ln) for ln in self.lines) if m)
-        res = {"images_predicted_exactly_by_CfbPhys": compared - len(set(ln.split(",")[2] for ln in drift)), "images_compared": compared,
-               "histories_followed_from_a_foreign_start_image": foreign, "drift": kinds}
+        refusals = sum(int(m.group(1)) for m in (re.match(r'^<<"REFUSALS", (\d+)>>', ln) for ln in self.lines) if m)
+        res = {"images_predicted_exactly_by_CfbPhys": compared - len(set(ln.split(",")[2] for ln in drift if '"api"' not in ln)), "images_compared": compared,
+               "histories_followed_from_a_foreign_start_image": foreign,
+               "refusals_whose_error_kind_CfbApi_predicted": refusals - kinds.get("api", 0), "refusals_compared_with_CfbApi": refusals, "drift": kinds}
         real = {}
         for ln in self.lines:
             m = CLASS_RE.match(ln)
@@ -426,9 +463,13 @@ def check_c03(tier, seed):
 
 def check_c10(tier, seed):
     out = Outcome("C10", tier, seed)
-    run_batch(out, "edges", "A", edges_namespace(out, tier))
+    # design level: the API layer's checks all precede its effects, also in the loops of create_storage_all / remove_storage_all
+    design_api(out, 4 if tier == "quick" else 5)
+    fid = Fidelity()
+    run_batch(out, "edges", "A", edges_namespace(out, tier), extra_specs=("Trace_Phys",), keep=fid.lines)
     for dn, hs in random_batches(seed + 3, tier, 60, 500, 40, dicts=("A", "E")).items():
-        run_batch(out, f"random{dn}", dn, hs)
+        run_batch(out, f"random{dn}", dn, hs, extra_specs=("Trace_Phys",) if dn == "A" else (), keep=fid.lines)
+    out.c10_fid = fid
     # refused seeks on a handle holding unflushed data: bytes and position must not change
     from . import hgens
     rng = random.Random(seed + 33)
@@ -470,8 +511,11 @@ def check_c10(tier, seed):
             run_batch(out, f"deviated_{c['id']}_v{ver}", c["dict"], hs)
     return finish(out, "model_checking",
                   "refusals on TLC-generated foreign files carrying tolerated deviations (bytes unchanged); refused seeks on handles with pending data (Trace_Handle: image hash and position unchanged); every call the model refuses (NotFound / AlreadyExists / InvalidInput) must leave the image hash unchanged and the "
-                  "following events must validate against the unchanged model state; refusal x state coverage comes from the MC_Tree graph",
-                  FILE_ASSUME)
+                  "following events must validate against the unchanged model state; refusal x state coverage comes from the MC_Tree graph; a call that is "
+                  "refused although the model lets it succeed is held to the same rule; design level: InvNoEffect of MC_Api (CfbApi, the API layer on CfbPhys: every "
+                  "check precedes every effect, also inside the loops of create_storage_all / remove_storage_all); fidelity: the error kind of every recorded refusal "
+                  "against CfbApi's check order (Trace_Phys)",
+                  FILE_ASSUME, {"fidelity": out.c10_fid.summary("C10")})
 
 
 def check_c08(tier, seed):
